@@ -54,6 +54,14 @@ func (eng *Engine) abciNoAmbientInput(entries []string, allowed map[string]strin
 						}
 					case *ssa.Select:
 						findings = append(findings, ambientFinding{e, path, "select statement"})
+					case *ssa.FieldAddr:
+						// node-local state (filled by CheckTx from the local mempool) is an ambient input for the
+						// methods that execute blocks: they may reset it or refresh its member list, not consult it
+						if e != "app::(*ShutterApp).CheckTx" {
+							if what := nodeLocalUse(x); what != "" {
+								findings = append(findings, ambientFinding{e, path, what})
+							}
+						}
 					case *ssa.Range:
 						if _, isMap := x.X.Type().Underlying().(*types.Map); isMap && !mapRangeOK[stripTypeArgs(name)] {
 							findings = append(findings, ambientFinding{e, path, "range over a map in a function without an order-independence or functional contract"})
@@ -100,4 +108,46 @@ func (eng *Engine) abciNoAmbientInput(entries []string, allowed map[string]strin
 	}
 	sort.Strings(checked)
 	return
+}
+
+// nodeLocalFields are struct fields holding state that is not a function of the block sequence.
+var nodeLocalFields = map[string]map[string]bool{
+	// field -> methods that may be called on the value read from it by block-executing code
+	"app.ShutterApp.CheckTxState": {"Reset": true, "SetMembers": true},
+}
+
+func nodeLocalUse(fa *ssa.FieldAddr) string {
+	k := fieldKey(fa)
+	allowed, ok := nodeLocalFields[k]
+	if !ok {
+		return ""
+	}
+	for _, r := range *fa.Referrers() {
+		switch x := r.(type) {
+		case *ssa.DebugRef:
+			continue
+		case *ssa.Store:
+			if x.Addr == fa {
+				continue // overwriting the whole field
+			}
+		case *ssa.UnOp:
+			okUse := true
+			for _, r2 := range *x.Referrers() {
+				switch y := r2.(type) {
+				case *ssa.DebugRef:
+					continue
+				case ssa.CallInstruction:
+					if callee := y.Common().StaticCallee(); callee != nil && allowed[callee.Name()] && len(y.Common().Args) > 0 && y.Common().Args[0] == ssa.Value(x) {
+						continue
+					}
+				}
+				okUse = false
+			}
+			if okUse {
+				continue
+			}
+		}
+		return "use of node-local state " + k + " (filled by CheckTx from the local mempool, not by the block sequence) other than resetting it"
+	}
+	return ""
 }
